@@ -150,6 +150,12 @@ impl<'grammar> TypeInferencer<'grammar> {
         #[cfg(lalrpop_verif)]
         let ids = crate::verif_hooks::order(ids);
 
+        // `keys()` comes out in hash order, which differs from process to process; with
+        // mutually recursive nonterminals whose types are inferred, the nonterminal visited
+        // first decides which types are found (or whether inference fails at all).
+        let mut ids = ids;
+        ids.sort();
+
         for id in &ids {
             self.nonterminal_type(id)?;
             debug_assert!(self.types.lookup_nonterminal_type(id).is_some());
